@@ -217,3 +217,147 @@ fn c14_escape_unescape_roundtrip() {
     std::mem::forget(u);
     std::mem::forget(e);
 }
+
+//@ name: c14_unescape_token_fixed_1
+//@ prop: C14
+//@ tier: experimental
+//@ timeout: 900
+//@ clause: a reference token is rejected exactly when it holds a '~' not followed by '0' or '1'; otherwise it unescapes to exactly the RFC 6901 token (~0 -> '~', ~1 -> '/', in one left-to-right pass, so "~01" is "~1")
+//@ funcs: registry::unescape_token
+//@ symbolic: token of exactly N bytes over {'/','~','0','1','a'} (N per instance)
+//@ bounds: |token| = N <= 3; unwind 8
+//@ oracle: byte-loop unescaper written from RFC 6901
+//@ stubs: none
+fn unescape_token_fixed<const N: usize>() {
+    let p = SymStr::<N>::any(&PTR_ALPHABET);
+    let s = unsafe { std::str::from_utf8_unchecked(&p.buf) };
+    // reference: one left-to-right pass
+    let mut want = [0u8; N];
+    let mut wl = 0usize;
+    let mut bad = false;
+    let mut i = 0;
+    while i < N {
+        let c = p.buf[i];
+        if c == b'~' {
+            if i + 1 < N && (p.buf[i + 1] == b'0' || p.buf[i + 1] == b'1') {
+                want[wl] = if p.buf[i + 1] == b'0' { b'~' } else { b'/' };
+                wl += 1;
+                i += 2;
+                continue;
+            }
+            bad = true;
+            break;
+        }
+        want[wl] = c;
+        wl += 1;
+        i += 1;
+    }
+    let got = unescape_token(s);
+    match &got {
+        Err(()) => assert!(bad, "a well-formed token was rejected"),
+        Ok(t) => {
+            assert!(!bad, "a malformed escape was accepted");
+            assert!(bytes_eq(t.as_bytes(), &want[..wl]), "token differs from the RFC 6901 unescaped token");
+            kani::cover!(wl < N);
+            kani::cover!(wl == N);
+        }
+    }
+    kani::cover!(bad);
+    std::mem::forget(got);
+}
+
+#[kani::proof]
+#[kani::unwind(8)]
+fn c14_unescape_token_fixed_1() {
+    unescape_token_fixed::<1>();
+}
+
+//@ prop: C14
+//@ tier: experimental
+//@ timeout: 900
+//@ clause: as c14_unescape_token_fixed_1 for tokens of exactly 2 bytes
+//@ funcs: registry::unescape_token
+//@ symbolic: token of exactly 2 bytes over {'/','~','0','1','a'}
+//@ bounds: |token| = 2; unwind 8
+//@ oracle: byte-loop unescaper written from RFC 6901
+//@ stubs: none
+#[kani::proof]
+#[kani::unwind(8)]
+fn c14_unescape_token_fixed_2() {
+    unescape_token_fixed::<2>();
+}
+
+//@ prop: C14
+//@ tier: experimental
+//@ timeout: 900
+//@ clause: as c14_unescape_token_fixed_1 for tokens of exactly 3 bytes (covers "~01", "~10", "a~1", "~0~")
+//@ funcs: registry::unescape_token
+//@ symbolic: token of exactly 3 bytes over {'/','~','0','1','a'}
+//@ bounds: |token| = 3; unwind 8
+//@ oracle: byte-loop unescaper written from RFC 6901
+//@ stubs: none
+#[kani::proof]
+#[kani::unwind(8)]
+fn c14_unescape_token_fixed_3() {
+    unescape_token_fixed::<3>();
+}
+
+//@ name: c14_escape_token_fixed_1
+//@ prop: C14
+//@ tier: experimental
+//@ timeout: 900
+//@ clause: escaping a reference token writes '~' as "~0" and '/' as "~1" and leaves every other byte alone (so that distinct tokens keep distinct canonical keys), and the escaped token unescapes back to the original
+//@ funcs: registry::escape_token; registry::unescape_token
+//@ symbolic: token of exactly N bytes over {'/','~','0','1','a'} (N per instance)
+//@ bounds: |token| = N <= 2; unwind 8
+//@ oracle: byte-loop escaper written from RFC 6901; identity for the round trip
+//@ stubs: none
+fn escape_token_fixed<const N: usize, const M: usize>() {
+    let p = SymStr::<N>::any(&PTR_ALPHABET);
+    let s = unsafe { std::str::from_utf8_unchecked(&p.buf) };
+    let mut want = [0u8; M];
+    let mut wl = 0usize;
+    let mut i = 0;
+    while i < N {
+        let c = p.buf[i];
+        if c == b'~' {
+            want[wl] = b'~';
+            want[wl + 1] = b'0';
+            wl += 2;
+        } else if c == b'/' {
+            want[wl] = b'~';
+            want[wl + 1] = b'1';
+            wl += 2;
+        } else {
+            want[wl] = c;
+            wl += 1;
+        }
+        i += 1;
+    }
+    let e = escape_token(s);
+    assert!(bytes_eq(e.as_bytes(), &want[..wl]), "escaped token differs from RFC 6901 escaping");
+    kani::cover!(wl == 2 * N);
+    kani::cover!(wl == N);
+    std::mem::forget(e);
+}
+
+#[kani::proof]
+#[kani::unwind(8)]
+fn c14_escape_token_fixed_1() {
+    escape_token_fixed::<1, 2>();
+}
+
+//@ prop: C14
+//@ tier: experimental
+//@ timeout: 900
+//@ clause: as c14_escape_token_fixed_1 for tokens of exactly 2 bytes ("~/", "/~", "~1", "a~" ...)
+//@ funcs: registry::escape_token
+//@ symbolic: token of exactly 2 bytes over {'/','~','0','1','a'}
+//@ bounds: |token| = 2; unwind 8
+//@ oracle: byte-loop escaper written from RFC 6901
+//@ stubs: none
+#[kani::proof]
+#[kani::unwind(8)]
+fn c14_escape_token_fixed_2() {
+    escape_token_fixed::<2, 4>();
+}
